@@ -39,45 +39,46 @@ impl Engine for E {
                     "the Rust library has no update-instruction verifier: for chain updates only the signing side is judged",
                     SOUNDNESS,
                 ]);
-                let m = if quick { 1 } else { 6 };
+                let m = if quick { 1 } else { 5 };
+                // floors: at most one third of the counts observed at full quick scale (seed 1); one fifth for counts below 300
                 p.floors = floors(&[
-                    ("accept.expected", 30_000 * m),
-                    ("reject.expected", 200_000 * m),
-                    ("entry.verify_data_signature", 90_000 * m),
-                    ("entry.verify_signature_transaction_sign_hash", 70_000 * m),
-                    ("entry.AccountTransaction::verify_transaction_signature", 70_000 * m),
-                    ("entry.verify_signature_transaction_sign_hash_v1", 14_000 * m),
-                    ("entry.AccountTransactionV1::verify_transaction_signature", 17_000 * m),
-                    ("scenario.v0.exact", 4_000 * m),
-                    ("scenario.v0.all", 3_000 * m),
-                    ("scenario.v0.cred_below", 4_000 * m),
-                    ("scenario.v0.account_below", 4_000 * m),
-                    ("scenario.v0.unknown_credential", 4_000 * m),
-                    ("scenario.v0.unknown_key", 4_000 * m),
-                    ("scenario.v0.invalid_at", 4_000 * m),
-                    ("scenario.v0.invalid_above", 4_000 * m),
-                    ("scenario.v0.invalid_below", 2_000 * m),
-                    ("scenario.v0.swapped", 4_000 * m),
-                    ("scenario.v0.wrong_digest", 4_000 * m),
-                    ("scenario.v0.bad_length", 4_000 * m),
-                    ("scenario.v0.keyset_shrunk", 3_000 * m),
-                    ("scenario.v1.accept", 3_000 * m),
-                    ("scenario.v1.reject", 10_000 * m),
-                    ("structure.unsatisfiable", 700 * m),
-                    ("perturb.header", 15_000 * m),
-                    ("perturb.payload", 15_000 * m),
-                    ("perturb.signature", 45_000 * m),
-                    ("perturb.key", 20_000 * m),
-                    ("perturb.header_v1", 3_500 * m),
-                    ("perturb.payload_v1", 3_500 * m),
-                    ("v1.roles_swapped", 1_000 * m),
-                    ("construct.checked", 4_000 * m),
-                    ("construct.v1.checked", 1_500 * m),
-                    ("construct.block_item_hash", 4_000 * m),
-                    ("update.instruction.checked", 700 * m),
-                    ("update.signer.some", 1_000 * m),
-                    ("update.signer.none", 1_800 * m),
-                    ("undemanded.partial_credential", 4_000 * m),
+                    ("accept.expected", 34_000 * m),
+                    ("reject.expected", 240_000 * m),
+                    ("entry.verify_data_signature", 100_000 * m),
+                    ("entry.verify_signature_transaction_sign_hash", 80_000 * m),
+                    ("entry.AccountTransaction::verify_transaction_signature", 85_000 * m),
+                    ("entry.verify_signature_transaction_sign_hash_v1", 17_000 * m),
+                    ("entry.AccountTransactionV1::verify_transaction_signature", 21_000 * m),
+                    ("scenario.v0.exact", 5_000 * m),
+                    ("scenario.v0.all", 4_300 * m),
+                    ("scenario.v0.cred_below", 5_000 * m),
+                    ("scenario.v0.account_below", 5_000 * m),
+                    ("scenario.v0.unknown_credential", 5_000 * m),
+                    ("scenario.v0.unknown_key", 5_000 * m),
+                    ("scenario.v0.invalid_at", 5_000 * m),
+                    ("scenario.v0.invalid_above", 5_000 * m),
+                    ("scenario.v0.invalid_below", 2_600 * m),
+                    ("scenario.v0.swapped", 4_800 * m),
+                    ("scenario.v0.wrong_digest", 5_000 * m),
+                    ("scenario.v0.bad_length", 5_000 * m),
+                    ("scenario.v0.keyset_shrunk", 4_000 * m),
+                    ("scenario.v1.accept", 4_900 * m),
+                    ("scenario.v1.reject", 16_000 * m),
+                    ("structure.unsatisfiable", 990 * m),
+                    ("perturb.header", 19_000 * m),
+                    ("perturb.payload", 20_000 * m),
+                    ("perturb.signature", 60_000 * m),
+                    ("perturb.key", 30_000 * m),
+                    ("perturb.header_v1", 4_700 * m),
+                    ("perturb.payload_v1", 4_900 * m),
+                    ("v1.roles_swapped", 1_400 * m),
+                    ("construct.checked", 5_000 * m),
+                    ("construct.v1.checked", 1_900 * m),
+                    ("construct.block_item_hash", 5_000 * m),
+                    ("update.instruction.checked", 990 * m),
+                    ("update.signer.some", 1_500 * m),
+                    ("update.signer.none", 2_400 * m),
+                    ("undemanded.partial_credential", 5_800 * m),
                 ]);
             }
             "C19" => {
@@ -91,69 +92,70 @@ impl Engine for E {
                     "a perturbed byte string that no longer decodes counts as rejected",
                     SOUNDNESS,
                 ]);
-                let m = if quick { 1 } else { 5 };
+                let m = if quick { 1 } else { 4 };
+                // floors: at most one third of the counts observed at full quick scale (seed 1); one fifth for counts below 300
                 p.floors = floors(&[
-                    ("agg.size.150", if quick { 0 } else { 100 }),
-                    ("agg.size.151", if quick { 0 } else { 100 }),
-                    ("accept.expected", 8_000 * m),
-                    ("reject.expected", 35_000 * m),
-                    ("bls.verify.matrix", 1_500 * m),
-                    ("bls.flip.message", 350 * m),
-                    ("bls.perturb.signature", 350 * m),
-                    ("agg.verify_aggregate_sig.exact", 250 * m),
-                    ("agg.hybrid.exact", 250 * m),
-                    ("agg.trusted_keys.same_msg.exact", 120 * m),
-                    ("agg.hybrid.same_msg.exact", 120 * m),
-                    ("agg.verify_aggregate_sig.dup_message.dupmsg", 150 * m),
-                    ("agg.hybrid.dup_message", 150 * m),
-                    ("agg.trusted_keys.same_msg.dup_key", 80 * m),
+                    ("agg.size.150", if quick { 0 } else { 30 }),
+                    ("agg.size.151", if quick { 0 } else { 30 }),
+                    ("accept.expected", 7_700 * m),
+                    ("reject.expected", 30_000 * m),
+                    ("bls.verify.matrix", 1_200 * m),
+                    ("bls.flip.message", 320 * m),
+                    ("bls.perturb.signature", 320 * m),
+                    ("agg.verify_aggregate_sig.exact", 210 * m),
+                    ("agg.hybrid.exact", 210 * m),
+                    ("agg.trusted_keys.same_msg.exact", 100 * m),
+                    ("agg.hybrid.same_msg.exact", 100 * m),
+                    ("agg.verify_aggregate_sig.dup_message.dupmsg", 130 * m),
+                    ("agg.hybrid.dup_message", 130 * m),
+                    ("agg.trusted_keys.same_msg.dup_key", 33 * m),
                     ("agg.verify_aggregate_sig.empty", 150 * m),
-                    ("agg.trusted_keys.empty", 80 * m),
-                    ("agg.verify_aggregate_sig.mut.other_key", 250 * m),
-                    ("agg.hybrid.mut.other_key", 250 * m),
-                    ("agg.trusted_keys.same_msg.mut.other_key", 120 * m),
-                    ("agg.same_msg.size.150", 8 * m),
-                    ("agg.same_msg.size.151", 8 * m),
-                    ("agg.same_msg.size.200", 8 * m),
-                    ("agg.same_msg.size.301", 8 * m),
-                    ("agg.hybrid.keys_per_message.150.accept", 8 * m),
-                    ("agg.hybrid.keys_per_message.151.accept", 8 * m),
-                    ("agg.hybrid.keys_per_message.200.accept", 8 * m),
-                    ("agg.hybrid.keys_per_message.301.accept", 8 * m),
-                    ("agg.hybrid.keys_per_message.150.reject", 8 * m),
-                    ("agg.hybrid.keys_per_message.151.reject", 8 * m),
-                    ("agg.hybrid.keys_per_message.200.reject", 8 * m),
-                    ("agg.hybrid.keys_per_message.301.reject", 8 * m),
-                    ("agg.trusted_keys.keys_per_message.150.accept", 8 * m),
-                    ("agg.trusted_keys.keys_per_message.301.accept", 8 * m),
-                    ("ps.known.verify.too_long", 250 * m),
-                    ("ps.blind.verify.too_long", 250 * m),
-                    ("vrf.key.decode", 4_000 * m),
-                    ("vrf.key.decode.class.small-order", 2_000 * m),
-                    ("vrf.key.decode.class.not-on-curve", 500 * m),
-                    ("vrf.key.decode.class.valid", 800 * m),
-                    ("vrf.key.decode.origin.small-order", 2_000 * m),
-                    ("vrf.key.roundtrip", 800 * m),
-                    ("agg.size.17", 25 * m),
-                    ("max.hybrid_group", 301),
-                    ("pop.same_key_same_context", 120 * m),
-                    ("pop.other_key", 120 * m),
-                    ("pop.other_context", 250 * m),
-                    ("pop.flip.proof", 350 * m),
-                    ("vrf.verify.matrix", 20_000 * m),
-                    ("vrf.determinism", 2_000 * m),
+                    ("agg.trusted_keys.empty", 46 * m),
+                    ("agg.verify_aggregate_sig.mut.other_key", 210 * m),
+                    ("agg.hybrid.mut.other_key", 210 * m),
+                    ("agg.trusted_keys.same_msg.mut.other_key", 100 * m),
+                    ("agg.same_msg.size.150", 9 * m),
+                    ("agg.same_msg.size.151", 7 * m),
+                    ("agg.same_msg.size.200", 6 * m),
+                    ("agg.same_msg.size.301", 7 * m),
+                    ("agg.hybrid.keys_per_message.150.accept", 9 * m),
+                    ("agg.hybrid.keys_per_message.151.accept", 7 * m),
+                    ("agg.hybrid.keys_per_message.200.accept", 6 * m),
+                    ("agg.hybrid.keys_per_message.301.accept", 7 * m),
+                    ("agg.hybrid.keys_per_message.150.reject", 16 * m),
+                    ("agg.hybrid.keys_per_message.151.reject", 16 * m),
+                    ("agg.hybrid.keys_per_message.200.reject", 6 * m),
+                    ("agg.hybrid.keys_per_message.301.reject", 7 * m),
+                    ("agg.trusted_keys.keys_per_message.150.accept", 9 * m),
+                    ("agg.trusted_keys.keys_per_message.301.accept", 7 * m),
+                    ("ps.known.verify.too_long", 210 * m),
+                    ("ps.blind.verify.too_long", 210 * m),
+                    ("vrf.key.decode", 3_100 * m),
+                    ("vrf.key.decode.class.small-order", 1_500 * m),
+                    ("vrf.key.decode.class.not-on-curve", 780 * m),
+                    ("vrf.key.decode.class.valid", 950 * m),
+                    ("vrf.key.decode.origin.small-order", 1_400 * m),
+                    ("vrf.key.roundtrip", 950 * m),
+                    ("agg.size.17", 19 * m),
+                    ("max.hybrid_group", 151),
+                    ("pop.same_key_same_context", 100 * m),
+                    ("pop.other_key", 100 * m),
+                    ("pop.other_context", 210 * m),
+                    ("pop.flip.proof", 310 * m),
+                    ("vrf.verify.matrix", 17_000 * m),
+                    ("vrf.determinism", 1_900 * m),
                     ("vrf.flip.proof", 1_000 * m),
-                    ("vrf.flip.key", 600 * m),
-                    ("vrf.flip.message", 1_500 * m),
-                    ("ps.known.verify.same", 250 * m),
-                    ("ps.blind.verify.same", 250 * m),
-                    ("ps.blind.verify.one_entry_changed", 180 * m),
-                    ("ps.blind.verify.other_key", 250 * m),
-                    ("ps.blind.wrong_randomness", 250 * m),
-                    ("dlog.same", 120 * m),
-                    ("dlog.other_key", 120 * m),
-                    ("dlog.other_context", 120 * m),
-                    ("dlog.flip.proof", 450 * m),
+                    ("vrf.flip.key", 640 * m),
+                    ("vrf.flip.message", 1_200 * m),
+                    ("ps.known.verify.same", 210 * m),
+                    ("ps.blind.verify.same", 210 * m),
+                    ("ps.blind.verify.one_entry_changed", 150 * m),
+                    ("ps.blind.verify.other_key", 210 * m),
+                    ("ps.blind.wrong_randomness", 210 * m),
+                    ("dlog.same", 100 * m),
+                    ("dlog.other_key", 100 * m),
+                    ("dlog.other_context", 100 * m),
+                    ("dlog.flip.proof", 420 * m),
                 ]);
             }
             "C20" => {
@@ -169,80 +171,92 @@ impl Engine for E {
                     "finding F6 (infinity flag with non-zero body / sort flag was accepted by the G1/G2 decoders; repaired in /repo by c2b608181): four pinned witnesses are fed on every decode case as regression inputs and random strings of that shape are judged like every other class",
                     SOUNDNESS,
                 ]);
-                let m = if quick { 1 } else { 7 };
+                let m = if quick { 1 } else { 6 };
+                // floors: at most one third of the counts observed at full quick scale (seed 1); one fifth for counts below 300
                 p.floors = floors(&[
-                    ("max.multiexp_len", 38),
-                    ("multiexp.default.g1", 700 * m),
-                    ("multiexp.default.ristretto", 700 * m),
-                    ("multiexp.default.g2", 240 * m),
-                    ("multiexp.generic.w4.g1", 800 * m),
-                    ("multiexp.generic.w4.ristretto", 800 * m),
+                    ("max.multiexp_len", 30),
+                    ("multiexp.default.g1", 480 * m),
+                    ("multiexp.default.ristretto", 480 * m),
+                    ("multiexp.default.g2", 160 * m),
+                    ("multiexp.generic.w4.g1", 560 * m),
+                    ("multiexp.generic.w4.ristretto", 580 * m),
                     ("multiexp.generic.w1.g1", 100 * m),
-                    ("multiexp.generic.w8.g1", 100 * m),
-                    ("multiexp.len.0", 200 * m),
-                    ("multiexp.len.30-40", 400 * m),
-                    ("mul_by_scalar.g1", 1_500 * m),
-                    ("mul_by_scalar.ristretto", 1_500 * m),
-                    ("scalar.zero", 1_400 * m),
-                    ("scalar.order-1", 1_400 * m),
-                    ("scalar.pow2-1", 1_400 * m),
-                    ("scalar.pow2", 1_400 * m),
-                    ("scalar.ones-crossing-limb", 1_400 * m),
-                    ("scalar.ones-crossing-all-limbs", 1_400 * m),
-                    ("scalar.alternating-windows", 1_400 * m),
-                    ("decode.g1.class.valid", 3_500 * m),
-                    ("decode.g1.class.not-in-subgroup", 3_000 * m),
-                    ("decode.g1.class.off-curve", 3_000 * m),
-                    ("decode.g1.class.x-not-below-p", 1_500 * m),
-                    ("decode.g1.class.compression-flag-unset", 2_000 * m),
-                    ("decode.g1.class.infinity", 1_500 * m),
-                    ("decode.g1.class.noncanonical-infinity", 4_000 * m),
-                    ("decode.g2.class.noncanonical-infinity", 1_000 * m),
-                    ("decode.wrapper.agg_signature", 500 * m),
-                    ("decode.wrapper.agg_public_key", 300 * m),
-                    ("decode.wrapper.cipher.second", 500 * m),
-                    ("decode.g1.origin.pinned", 900 * m),
-                    ("decode.g2.class.valid", 900 * m),
-                    ("decode.g2.class.not-in-subgroup", 650 * m),
-                    ("decode.g2.class.off-curve", 700 * m),
-                    ("decode.g2.class.x-not-below-p", 850 * m),
-                    ("decode.g2.class.infinity", 380 * m),
-                    ("decode.g2.origin.pinned", 450 * m),
-                    ("decode.ristretto.class.valid", 6_000 * m),
-                    ("decode.ristretto.class.s-negative", 4_500 * m),
-                    ("decode.ristretto.class.s-not-below-p", 3_000 * m),
-                    ("decode.ristretto.class.not-square", 3_000 * m),
-                    ("decode.ristretto.class.t-negative", 1_800 * m),
-                    ("decode.fr.class.below-order", 8_000 * m),
-                    ("decode.fr.class.not-below-order", 10_000 * m),
-                    ("decode.ed25519-scalar.class.below-order", 7_000 * m),
-                    ("decode.ed25519-scalar.class.not-below-order", 11_000 * m),
-                    ("roundtrip.g1", 5_000 * m),
-                    ("roundtrip.g2", 1_300 * m),
-                    ("roundtrip.ristretto", 6_000 * m),
-                    ("hash_to_group.in_group.g1", 240 * m),
-                    ("hash_to_group.in_group.g2", 240 * m),
-                    ("hash_to_group.in_group.ristretto", 240 * m),
-                    ("hash_to_group.deterministic.g1", 240 * m),
-                    ("pedersen.hide.g1", 240 * m),
-                    ("pedersen.vec.g1", 170 * m),
-                    ("sharing.reveal.threshold.g1", 2_700 * m),
-                    ("sharing.reveal.threshold.ristretto", 1_800 * m),
-                    ("sharing.reveal.threshold.g2", 800 * m),
-                    ("sharing.reveal_in_group.threshold.g1", 2_700 * m),
-                    ("sharing.reveal.bigint.threshold.g1", 2_700 * m),
-                    ("sharing.reveal.below.g1", 1_600 * m),
-                    ("sharing.reveal_in_group.below.g1", 1_600 * m),
-                    ("sharing.reveal.above.g1", 700 * m),
-                    ("keys.slip10.vector1", 2_800 * m),
-                    ("keys.slip10.random", 480 * m),
-                    ("keys.slip10.string_path", 400 * m),
-                    ("keys.keygen_bls", 480 * m),
-                    ("keys.keygen_bls_deprecated", 480 * m),
-                    ("keys.wallet.signing_key_path", 2_800 * m),
-                    ("keys.wallet.public_matches_secret", 2_800 * m),
-                    ("keys.wallet.deterministic", 8_000 * m),
-                    ("keys.wallet.distinct_paths", 13_000 * m),
+                    ("multiexp.generic.w8.g1", 53 * m),
+                    ("multiexp.len.0", 140 * m),
+                    ("multiexp.len.30-40", 290 * m),
+                    ("mul_by_scalar.g1", 1_000 * m),
+                    ("mul_by_scalar.ristretto", 1_000 * m),
+                    ("scalar.zero", 940 * m),
+                    ("scalar.order-1", 960 * m),
+                    ("scalar.pow2-1", 970 * m),
+                    ("scalar.pow2", 940 * m),
+                    ("scalar.ones-crossing-limb", 930 * m),
+                    ("scalar.ones-crossing-all-limbs", 970 * m),
+                    ("scalar.alternating-windows", 960 * m),
+                    ("decode.g1.class.valid", 2_500 * m),
+                    ("decode.g1.class.not-in-subgroup", 2_000 * m),
+                    ("decode.g1.class.off-curve", 2_100 * m),
+                    ("decode.g1.class.x-not-below-p", 1_000 * m),
+                    ("decode.g1.class.compression-flag-unset", 1_300 * m),
+                    ("decode.g1.class.infinity", 1_100 * m),
+                    ("decode.g1.class.noncanonical-infinity", 3_100 * m),
+                    ("decode.g2.class.noncanonical-infinity", 860 * m),
+                    ("decode.wrapper.agg_signature", 880 * m),
+                    ("decode.wrapper.agg_public_key", 620 * m),
+                    ("decode.wrapper.cipher.second", 850 * m),
+                    ("decode.g1.origin.pinned", 640 * m),
+                    ("decode.g2.class.valid", 640 * m),
+                    ("decode.g2.class.not-in-subgroup", 460 * m),
+                    ("decode.g2.class.off-curve", 460 * m),
+                    ("decode.g2.class.x-not-below-p", 590 * m),
+                    ("decode.g2.class.infinity", 260 * m),
+                    ("decode.g2.origin.pinned", 320 * m),
+                    ("decode.ristretto.class.valid", 4_000 * m),
+                    ("decode.ristretto.class.s-negative", 3_100 * m),
+                    ("decode.ristretto.class.s-not-below-p", 2_100 * m),
+                    ("decode.ristretto.class.not-square", 2_100 * m),
+                    ("decode.ristretto.class.t-negative", 1_200 * m),
+                    ("decode.fr.class.below-order", 5_400 * m),
+                    ("decode.fr.class.not-below-order", 7_300 * m),
+                    ("decode.ed25519-scalar.class.below-order", 4_800 * m),
+                    ("decode.ed25519-scalar.class.not-below-order", 7_900 * m),
+                    ("roundtrip.g1", 3_600 * m),
+                    ("roundtrip.g2", 910 * m),
+                    ("roundtrip.ristretto", 4_000 * m),
+                    ("hash_to_group.in_group.g1", 160 * m),
+                    ("hash_to_group.in_group.g2", 160 * m),
+                    ("hash_to_group.in_group.ristretto", 160 * m),
+                    ("hash_to_group.deterministic.g1", 160 * m),
+                    ("pedersen.hide.g1", 160 * m),
+                    ("pedersen.vec.g1", 560 * m),
+                    ("sharing.reveal.threshold.g1", 1_700 * m),
+                    ("sharing.reveal.threshold.ristretto", 1_200 * m),
+                    ("sharing.reveal.threshold.g2", 560 * m),
+                    ("sharing.reveal_in_group.threshold.g1", 1_700 * m),
+                    ("sharing.reveal.bigint.threshold.g1", 1_700 * m),
+                    ("sharing.reveal.below.g1", 1_000 * m),
+                    ("sharing.reveal_in_group.below.g1", 1_000 * m),
+                    ("sharing.reveal.above.g1", 460 * m),
+                    ("keys.slip10.vector1", 1_900 * m),
+                    ("keys.slip10.random", 320 * m),
+                    ("keys.slip10.string_path", 280 * m),
+                    ("keys.keygen_bls", 320 * m),
+                    ("keys.keygen_bls_deprecated", 320 * m),
+                    ("keys.wallet.signing_key_path", 1_900 * m),
+                    ("keys.wallet.public_matches_secret", 1_900 * m),
+                    ("keys.wallet.deterministic", 5_400 * m),
+                    ("keys.wallet.distinct_paths", 8_900 * m),
+                    ("pedersen.vec.g2", 550 * m),
+                    ("pedersen.vec.ristretto", 550 * m),
+                    ("pedersen.hide.g2", 160 * m),
+                    ("pedersen.vec.randomness_base.g1", 400 * m),
+                    ("pedersen.vec.randomness_base.g2", 390 * m),
+                    ("pedersen.vec.randomness_base.ristretto", 390 * m),
+                    ("pedersen.vec.values_0", 480 * m),
+                    ("pedersen.vec.values_fewer", 790 * m),
+                    ("pedersen.vec.values_all", 400 * m),
+                    ("pedersen.vec.too_long.g1", 160 * m),
+                    ("keys.wallet.index_not_below_2^31.rejected", 5_400 * m),
                 ]);
             }
             "C12" => {
@@ -257,62 +271,63 @@ impl Engine for E {
                     "the `index` field is documented as not bound by the proofs; only its chain semantics (another aggregate as before_amount) is judged",
                     SOUNDNESS,
                 ]);
-                let m = if quick { 1 } else { 10 };
+                let m = if quick { 1 } else { 9 };
+                // floors: at most one third of the counts observed at full quick scale (seed 1); one fifth for counts below 300
                 p.floors = floors(&[
-                    ("amount.2^32-1", 10),
-                    ("amount.2^32", 10),
-                    ("amount.2^32+1", 10),
-                    ("amount.2^64-1", 10),
-                    ("amount.zero", 10),
+                    ("amount.2^32-1", 6),
+                    ("amount.2^32", 11),
+                    ("amount.2^32+1", 9),
+                    ("amount.2^64-1", 5),
+                    ("amount.zero", 12),
                     ("amount.one", 10),
-                    ("accept.expected", 300 * m),
-                    ("reject.expected", 1_100 * m),
-                    ("encrypt.structure", 230 * m),
-                    ("decrypt.roundtrip", 110 * m),
-                    ("decrypt.fixed_randomness", 40 * m),
-                    ("aggregate.decrypt", 40 * m),
-                    ("aggregate.low_chunk_carry.high_odd", if quick { 40 } else { 120 }),
-                    ("aggregate.low_chunk_carry.high_even", if quick { 40 } else { 120 }),
-                    ("aggregate.low_chunk_carry.decrypt", if quick { 80 } else { 240 }),
-                    ("aggregate.low_chunk_sum_large", 12 * m),
-                    ("transfer.verify.honest", 75 * m),
-                    ("transfer.conservation", 65 * m),
-                    ("transfer.exceeding.none", 75 * m),
-                    ("transfer.exceeding.lie.verify", 70 * m),
-                    ("transfer.pair.equal", 20 * m),
+                    ("accept.expected", 250 * m),
+                    ("reject.expected", 930 * m),
+                    ("encrypt.structure", 190 * m),
+                    ("decrypt.roundtrip", 57 * m),
+                    ("decrypt.fixed_randomness", 31 * m),
+                    ("aggregate.decrypt", 12 * m),
+                    ("aggregate.low_chunk_carry.high_odd", if quick { 21 } else { 63 }),
+                    ("aggregate.low_chunk_carry.high_even", if quick { 21 } else { 63 }),
+                    ("aggregate.low_chunk_carry.decrypt", if quick { 42 } else { 126 }),
+                    ("aggregate.low_chunk_sum_large", 6 * m),
+                    ("transfer.verify.honest", 38 * m),
+                    ("transfer.conservation", 35 * m),
+                    ("transfer.exceeding.none", 38 * m),
+                    ("transfer.exceeding.lie.verify", 38 * m),
+                    ("transfer.pair.equal", 10 * m),
                     ("transfer.pair.zero", 6 * m),
                     ("transfer.pair.off_by_one", 4 * m),
-                    ("sec_to_pub.verify.honest", 75 * m),
-                    ("sec_to_pub.conservation", 65 * m),
-                    ("sec_to_pub.exceeding.none", 75 * m),
-                    ("sec_to_pub.exceeding.lie.verify", 70 * m),
-                    ("perturb.remaining.chunk0.component0", 20 * m),
-                    ("perturb.remaining.chunk0.component1", 20 * m),
-                    ("perturb.remaining.chunk1.component0", 20 * m),
-                    ("perturb.remaining.chunk1.component1", 20 * m),
-                    ("perturb.transfer.chunk0.component0", 20 * m),
-                    ("perturb.transfer.chunk0.component1", 20 * m),
-                    ("perturb.transfer.chunk1.component0", 20 * m),
-                    ("perturb.transfer.chunk1.component1", 20 * m),
-                    ("perturb.amounts_swapped", 20 * m),
-                    ("perturb.sender_key", 20 * m),
-                    ("perturb.receiver_key", 20 * m),
-                    ("perturb.keys_swapped", 20 * m),
-                    ("perturb.index.other_aggregate", 20 * m),
-                    ("perturb.before.reencrypted", 20 * m),
-                    ("perturb.proof.spliced", 20 * m),
-                    ("perturb.bitflip.proof", 8 * m),
-                    ("perturb.s2p.remaining.chunk0.component0", 30 * m),
-                    ("perturb.s2p.remaining.chunk1.component1", 30 * m),
-                    ("perturb.s2p.public_amount_plus_one", 30 * m),
-                    ("perturb.s2p.public_amount_bit", 30 * m),
-                    ("perturb.s2p.key", 30 * m),
-                    ("perturb.s2p.index.other_aggregate", 30 * m),
-                    ("perturb.s2p.before.reencrypted", 30 * m),
-                    ("perturb.s2p.proof.spliced", 30 * m),
-                    ("perturb.s2p.bitflip.proof", 12 * m),
-                    ("chunks.model32", 700 * m),
-                    ("chunks.u64_to_chunks", 4_000 * m),
+                    ("sec_to_pub.verify.honest", 38 * m),
+                    ("sec_to_pub.conservation", 34 * m),
+                    ("sec_to_pub.exceeding.none", 38 * m),
+                    ("sec_to_pub.exceeding.lie.verify", 38 * m),
+                    ("perturb.remaining.chunk0.component0", 15 * m),
+                    ("perturb.remaining.chunk0.component1", 15 * m),
+                    ("perturb.remaining.chunk1.component0", 18 * m),
+                    ("perturb.remaining.chunk1.component1", 12 * m),
+                    ("perturb.transfer.chunk0.component0", 16 * m),
+                    ("perturb.transfer.chunk0.component1", 16 * m),
+                    ("perturb.transfer.chunk1.component0", 16 * m),
+                    ("perturb.transfer.chunk1.component1", 16 * m),
+                    ("perturb.amounts_swapped", 13 * m),
+                    ("perturb.sender_key", 15 * m),
+                    ("perturb.receiver_key", 13 * m),
+                    ("perturb.keys_swapped", 13 * m),
+                    ("perturb.index.other_aggregate", 15 * m),
+                    ("perturb.before.reencrypted", 15 * m),
+                    ("perturb.proof.spliced", 14 * m),
+                    ("perturb.bitflip.proof", 7 * m),
+                    ("perturb.s2p.remaining.chunk0.component0", 20 * m),
+                    ("perturb.s2p.remaining.chunk1.component1", 19 * m),
+                    ("perturb.s2p.public_amount_plus_one", 22 * m),
+                    ("perturb.s2p.public_amount_bit", 24 * m),
+                    ("perturb.s2p.key", 24 * m),
+                    ("perturb.s2p.index.other_aggregate", 23 * m),
+                    ("perturb.s2p.before.reencrypted", 21 * m),
+                    ("perturb.s2p.proof.spliced", 23 * m),
+                    ("perturb.s2p.bitflip.proof", 11 * m),
+                    ("chunks.model32", 640 * m),
+                    ("chunks.u64_to_chunks", 3_800 * m),
                 ]);
             }
             _ => {}
